@@ -461,13 +461,23 @@ func (ev *Evaluator) evalPath(p *jast.Path, in Value, env *Env) (Value, *Err) {
 	if len(p.Steps) == 0 {
 		return Undef, nil
 	}
-	isVar := false
-	switch s0 := p.Steps[0].(type) {
-	case *jast.Var:
-		isVar = true
-	case *jast.Pred:
-		_, isVar = s0.X.(*jast.Var)
+	// a variable (or array constructor) head, however filtered or sorted,
+	// anchors the path: it is evaluated once against the context item
+	var anchored func(n jast.Node, outer bool) bool
+	anchored = func(n jast.Node, outer bool) bool {
+		switch s := n.(type) {
+		case *jast.Var:
+			return true
+		case *jast.Array:
+			return !outer
+		case *jast.Pred:
+			return anchored(s.X, false)
+		case *jast.Sort:
+			return anchored(s.X, false)
+		}
+		return false
 	}
+	isVar := anchored(p.Steps[0], true)
 	var output Value
 	if isVar || !isArray(in) {
 		output = []interface{}{in}
